@@ -721,3 +721,23 @@ func (s *State) Pick(src, dst int, idx []int) V {
 	delete(s.in, dst)
 	return s.emit(V{"op": "pick", "h": dst, "src": src, "idx": il})
 }
+
+// UnmarshalReuse decodes buffer b with the decoder of kind entry into a receiver that has already
+// decoded `first` (a valid packet of that kind). What such a reused receiver then holds is not the
+// subject of any property; that the call neither panics nor hangs nor over-allocates is (C01).
+func (s *State) UnmarshalReuse(entry string, first []byte, b int) V {
+	orig := s.Buf[b]
+	in := append([]byte(nil), orig...)
+	p := NewOf(entry)
+	pre, _ := guardedDecode(func() string { return fmt.Sprintf("reuse-first %s %v", entry, first) }, func() { _ = p.Unmarshal(append([]byte(nil), first...)) })
+	var err error
+	a0 := s.allocNow()
+	pan, msg := guardedDecode(func() string { return fmt.Sprintf("reuse %s %v after %v", entry, orig, first) }, func() { err = p.Unmarshal(in) })
+	alloc := s.allocNow() - a0
+	ev := V{"op": "unmarshal2", "entry": entry, "b": b, "h": 0, "first": abs.Bytes(first), "ok": !pan && err == nil, "panic": pan || pre,
+		"slow": false, "alloc": int(alloc), "bufsame": bytes.Equal(in, orig)}
+	if pan {
+		ev["msg"] = msg
+	}
+	return s.emit(ev)
+}
